@@ -49,38 +49,55 @@
 static void ed_mul_fix_plain(ed_t r, const ed_t * t, const bn_t k) {
 	int i, n;
 	int8_t naf[RLC_FP_BITS + 1], *_k;
+	bn_t m, o;
 	size_t l;
 
-	/* Compute the w-TNAF representation of k. */
-	l = RLC_FP_BITS + 1;
-	bn_rec_naf(naf, &l, k, RLC_DEPTH);
+	bn_null(m);
+	bn_null(o);
 
-	_k = naf + l - 1;
-	ed_set_infty(r);
-	for (i = l - 1; i >= 0; i--, _k--) {
-		n = *_k;
-		if (n == 0) {
-			/* doubling is followed by another doubling */
-			if (i > 0) {
-				r->coord = EXTND;
-				ed_dbl(r, r);
+	RLC_TRY {
+		bn_new(m);
+		bn_new(o);
+
+		/* Reduce the scalar modulo the group order. */
+		ed_curve_get_ord(o);
+		bn_mod(m, k, o);
+
+		/* Compute the w-TNAF representation of k. */
+		l = RLC_FP_BITS + 1;
+		bn_rec_naf(naf, &l, m, RLC_DEPTH);
+
+		_k = naf + l - 1;
+		ed_set_infty(r);
+		for (i = l - 1; i >= 0; i--, _k--) {
+			n = *_k;
+			if (n == 0) {
+				/* doubling is followed by another doubling */
+				if (i > 0) {
+					r->coord = EXTND;
+					ed_dbl(r, r);
+				} else {
+					/* use full extended coordinate doubling for last step */
+					ed_dbl(r, r);
+				}
 			} else {
-				/* use full extended coordinate doubling for last step */
 				ed_dbl(r, r);
-			}
-		} else {
-			ed_dbl(r, r);
-			if (n > 0) {
-				ed_add(r, r, t[n / 2]);
-			} else if (n < 0) {
-				ed_sub(r, r, t[-n / 2]);
+				if (n > 0) {
+					ed_add(r, r, t[n / 2]);
+				} else if (n < 0) {
+					ed_sub(r, r, t[-n / 2]);
+				}
 			}
 		}
+		/* Convert r to affine coordinates. */
+		ed_norm(r, r);
 	}
-	/* Convert r to affine coordinates. */
-	ed_norm(r, r);
-	if (bn_sign(k) == RLC_NEG) {
-		ed_neg(r, r);
+	RLC_CATCH_ANY {
+		RLC_THROW(ERR_CAUGHT);
+	}
+	RLC_FINALLY {
+		bn_free(m);
+		bn_free(o);
 	}
 }
 
@@ -98,18 +115,23 @@ static void ed_mul_fix_plain(ed_t r, const ed_t * t, const bn_t k) {
  */
 static void ed_mul_combs_plain(ed_t r, const ed_t * t, const bn_t k) {
 	int i, j, l, w, n0, p0, p1;
-	bn_t n;
+	bn_t n, m;
 
 	bn_null(n);
+	bn_null(m);
 
 	RLC_TRY {
 		bn_new(n);
+		bn_new(m);
 
 		ed_curve_get_ord(n);
 		l = bn_bits(n);
 		l = ((l % RLC_DEPTH) == 0 ? (l / RLC_DEPTH) : (l / RLC_DEPTH) + 1);
 
-		n0 = bn_bits(k);
+		/* Reduce the scalar modulo the group order. */
+		bn_mod(m, k, n);
+
+		n0 = bn_bits(m);
 
 		p0 = (RLC_DEPTH) * l - 1;
 
@@ -117,7 +139,7 @@ static void ed_mul_combs_plain(ed_t r, const ed_t * t, const bn_t k) {
 		p1 = p0--;
 		for (j = RLC_DEPTH - 1; j >= 0; j--, p1 -= l) {
 			w = w << 1;
-			if (p1 < n0 && bn_get_bit(k, p1)) {
+			if (p1 < n0 && bn_get_bit(m, p1)) {
 				w = w | 1;
 			}
 		}
@@ -130,7 +152,7 @@ static void ed_mul_combs_plain(ed_t r, const ed_t * t, const bn_t k) {
 			p1 = p0--;
 			for (j = RLC_DEPTH - 1; j >= 0; j--, p1 -= l) {
 				w = w << 1;
-				if (p1 < n0 && bn_get_bit(k, p1)) {
+				if (p1 < n0 && bn_get_bit(m, p1)) {
 					w = w | 1;
 				}
 			}
@@ -139,15 +161,13 @@ static void ed_mul_combs_plain(ed_t r, const ed_t * t, const bn_t k) {
 			}
 		}
 		ed_norm(r, r);
-		if (bn_sign(k) == RLC_NEG) {
-			ed_neg(r, r);
-		}
 	}
 	RLC_CATCH_ANY {
 		RLC_THROW(ERR_CAUGHT);
 	}
 	RLC_FINALLY {
 		bn_free(n);
+		bn_free(m);
 	}
 }
 
@@ -185,21 +205,39 @@ void ed_mul_pre_basic(ed_t * t, const ed_t p) {
 }
 
 void ed_mul_fix_basic(ed_t r, const ed_t *t, const bn_t k) {
+	bn_t m, n;
+
 	if (bn_is_zero(k)) {
 		ed_set_infty(r);
 		return;
 	}
 
-	ed_set_infty(r);
+	bn_null(m);
+	bn_null(n);
 
-	for (int i = 0; i < bn_bits(k); i++) {
-		if (bn_get_bit(k, i)) {
-			ed_add(r, r, t[i]);
+	RLC_TRY {
+		bn_new(m);
+		bn_new(n);
+
+		/* Reduce the scalar modulo the group order: the table has bn_bits(n) entries. */
+		ed_curve_get_ord(n);
+		bn_mod(m, k, n);
+
+		ed_set_infty(r);
+
+		for (int i = 0; i < bn_bits(m); i++) {
+			if (bn_get_bit(m, i)) {
+				ed_add(r, r, t[i]);
+			}
 		}
+		ed_norm(r, r);
 	}
-	ed_norm(r, r);
-	if (bn_sign(k) == RLC_NEG) {
-		ed_neg(r, r);
+	RLC_CATCH_ANY {
+		RLC_THROW(ERR_CAUGHT);
+	}
+	RLC_FINALLY {
+		bn_free(m);
+		bn_free(n);
 	}
 }
 
@@ -303,20 +341,25 @@ void ed_mul_pre_combd(ed_t * t, const ed_t p) {
 
 void ed_mul_fix_combd(ed_t r, const ed_t * t, const bn_t k) {
 	int i, j, d, e, w0, w1, n0, p0, p1;
-	bn_t n;
+	bn_t n, m;
 
 	bn_null(n);
+	bn_null(m);
 
 	RLC_TRY {
 		bn_new(n);
+		bn_new(m);
 
 		ed_curve_get_ord(n);
 		d = bn_bits(n);
 		d = ((d % RLC_DEPTH) == 0 ? (d / RLC_DEPTH) : (d / RLC_DEPTH) + 1);
 		e = (d % 2 == 0 ? (d / 2) : (d / 2) + 1);
 
+		/* Reduce the scalar modulo the group order. */
+		bn_mod(m, k, n);
+
 		ed_set_infty(r);
-		n0 = bn_bits(k);
+		n0 = bn_bits(m);
 
 		p1 = (e - 1) + (RLC_DEPTH - 1) * d;
 		for (i = e - 1; i >= 0; i--) {
@@ -326,7 +369,7 @@ void ed_mul_fix_combd(ed_t r, const ed_t * t, const bn_t k) {
 			p0 = p1;
 			for (j = RLC_DEPTH - 1; j >= 0; j--, p0 -= d) {
 				w0 = w0 << 1;
-				if (p0 < n0 && bn_get_bit(k, p0)) {
+				if (p0 < n0 && bn_get_bit(m, p0)) {
 					w0 = w0 | 1;
 				}
 			}
@@ -335,7 +378,7 @@ void ed_mul_fix_combd(ed_t r, const ed_t * t, const bn_t k) {
 			p0 = p1-- + e;
 			for (j = RLC_DEPTH - 1; j >= 0; j--, p0 -= d) {
 				w1 = w1 << 1;
-				if (i + e < d && p0 < n0 && bn_get_bit(k, p0)) {
+				if (i + e < d && p0 < n0 && bn_get_bit(m, p0)) {
 					w1 = w1 | 1;
 				}
 			}
@@ -344,15 +387,13 @@ void ed_mul_fix_combd(ed_t r, const ed_t * t, const bn_t k) {
 			ed_add(r, r, t[(1 << RLC_DEPTH) + w1]);
 		}
 		ed_norm(r, r);
-		if (bn_sign(k) == RLC_NEG) {
-			ed_neg(r, r);
-		}
 	}
 	RLC_CATCH_ANY {
 		RLC_THROW(ERR_CAUGHT);
 	}
 	RLC_FINALLY {
 		bn_free(n);
+		bn_free(m);
 	}
 }
 
